@@ -1020,9 +1020,18 @@ def item_header_lemma(u, nextfn):
         if not (v[0] == "agg" and str(v[1]).endswith("Option::Some") and v[3] and v[3][0][0] == "agg" and v[3][0][1] == "tuple" and len(v[3][0][3]) == 2):
             return None
         info, sl = v[3][0][3]
-        if not (sl[0] == "call" and sl[1].split("::")[-1] == "index" and len(sl[2]) == 2 and sl[2][1][0] == "agg" and "RangeTo::" in str(sl[2][1][1])):
+        if not (sl[0] == "call" and sl[1].split("::")[-1] == "index" and len(sl[2]) == 2 and sl[2][1][0] == "agg"):
             return None
-        end = sl[2][1][3][0]
+        if "RangeTo::" in str(sl[2][1][1]):
+            end = sl[2][1][3][0]                   # X[..info.total]: length = info.total
+        elif "Range::" in str(sl[2][1][1]) and len(sl[2][1][3]) == 2:
+            # X[s..s + info.total] (overflow-checked sum): length = info.total
+            s0, e0 = sl[2][1][3]
+            if not (e0[0] == "proj" and e0[2] == "0" and e0[1][0] == "bin" and e0[1][1] == "AddWithOverflow" and s0 in (e0[1][2], e0[1][3])):
+                return None
+            end = e0[1][3] if e0[1][2] == s0 else e0[1][2]
+        else:
+            return None
         if not (end[0] == "proj" and end[1] == info and isinstance(end[2], str)):
             return None
         x = info
